@@ -286,7 +286,7 @@ FAMILIES = [
            thorough=dict(k=2, waits=2, kinds=K5, real=True),
            bounds='2 activities x 2 waits, exact rational dates'),
     Family('reuse_runs', _c07.fam_reuse_runs, quick=dict(), thorough=dict(real=True),
-           reach=['second-run', 'second-run-starts-before-the-date'],
+           reach=['second-run', 'second-run-starts-before-the-date', 'first-simulation-aborted'],
            bounds='one stored date notification used in two consecutive simulations with symbolic '
                   'start times (harness shared with C07)'),
     Family('reuse', _c07.fam_reuse, quick=dict(), thorough=dict(real=True),
